@@ -1,11 +1,13 @@
 (* C18 — JWTs are recognised structurally and their registered fields shown faithfully.
-   Only statements; proofs are in Proofs/Jwt.v.  [J] is the encoding/json oracle: what
-   json.Unmarshal into a map[string]any returned for the decoded bytes (object with that
-   content / null / error); every theorem holds for every such function.
+   Only statements; proofs are in Proofs/Jwt.v, JwtDate.v, JwtDispatch.v, JwtJson.v.  [J] stands for
+   encoding/json: what json.Unmarshal into a map[string]any returns for the decoded bytes (object
+   with that content / null / error); every theorem holds for every such function (C18_dispatch:
+   for every one that decodes only texts starting with '{' or white space into a map); the case
+   runner uses the reference reader Model/JwtJson.v for it.
    The specification side ([no_dot], [shows], [hidden], [listing], [subseq], [registered_names],
    [algs12], [url_char]) is defined in Proofs/Jwt.v independently of the converters of the model. *)
 From WI Require Import Lib.Base Lib.Info Lib.Time Model.Base64 Model.Jwt Proofs.Jwt.
-From WI Require Run.C18 Proofs.JwtDate Model.Dispatch Proofs.JwtDispatch.
+From WI Require Run.C18 Proofs.JwtDate Model.Dispatch Proofs.JwtDispatch Model.Uuid Model.JwtJson Proofs.JwtJson.
 From Coq Require Import Permutation.
 Open Scope N_scope.
 
@@ -254,12 +256,74 @@ Theorem C18_dispatch_table_ok : Proofs.JwtDispatch.dispatch_ok Model.Dispatch.ta
 Proof. exact Proofs.JwtDispatch.dispatch_ok_now. Qed.
 Print Assumptions C18_dispatch_table_ok.
 
-(* Inspect reaches JWTData: when no reserved-name row and no signature row matches and the input
-   is not a UUID, an input that IsJWT accepts is described by JWTData whatever the later sniffers
-   (IsASN1, IsBase64ASN1, IsMixedPEM) answer.  (DESIGN's C18_dispatch, PARTIAL: the three
-   hypotheses about names, signatures and the UUID sniffer are assumed, not derived from
-   well-formedness of the token; they are exercised by the op "inspect" on every well-formed case.) *)
-Theorem C18_dispatch_partial : forall sniff parse name data i,
+(* T1: no signature of the regenerated table can be the beginning of a token: skipping line ends,
+   its first two characters are not base64 characters whose first decoded byte is '{' or JSON white
+   space (e.g. "ecdsa-sha2-": 'e','c' decode to 0x79..). *)
+Theorem C18_signatures_clear : Proofs.JwtDispatch.magics_clear Model.Dispatch.table = true.
+Proof. exact Proofs.JwtDispatch.magics_clear_now. Qed.
+Print Assumptions C18_signatures_clear.
+
+(* every text the UUID recogniser of Model/Uuid.v accepts consists of hexadecimal digits, '-', braces,
+   the letters and colon of "urn:uuid:" and the bytes of white-space code points; so a text with a
+   '.' is no UUID *)
+Theorem C18_uuid_text_bytes : forall s,
+  Model.Uuid.is_uuid s = true -> forallb Proofs.JwtDispatch.uuid_text_byte s = true.
+Proof. exact Proofs.JwtDispatch.uuid_text_bytes. Qed.
+(* Print Assumptions: see C18_uuid_dependent below (one traversal of the UUID proofs instead of three) *)
+
+(* C18_dispatch (DESIGN 4/C18, in full).  For every behaviour J of the JSON library that decodes
+   into a map only texts whose first byte is '{' or JSON white space (J_object_start, RFC 8259
+   sections 2 and 4), every file name that matches no name row of the regenerated table, every
+   answer of the sniffers and parsers of the other rows, and every token IsJWT accepts:
+   file.Inspect - the dispatch model over the regenerated table with the modelled recognisers
+   IsJWT and IsUUID and the modelled signature matching - returns JWTData's description of the
+   parsed token. *)
+Theorem C18_dispatch : forall J other_sniff other_parse name tok,
+  Proofs.JwtDispatch.J_object_start J ->
+  (forall r, In r Model.Dispatch.table -> Model.Dispatch.matches_name r name = Ok false) ->
+  is_jwt J tok = true ->
+  exists j, parse_jwt J tok = Ok j /\
+            inspect_jwt J other_sniff other_parse name tok = Ok (describe_jwt j).
+Proof. exact Proofs.JwtDispatch.jwt_dispatch. Qed.
+(* Print Assumptions: see C18_uuid_dependent below *)
+
+(* the hypothesis on J, spelled out *)
+Theorem C18_J_object_start_def : forall J,
+  Proofs.JwtDispatch.J_object_start J <->
+  (forall b, is_object (J b) = true ->
+     exists c r, b = c :: r /\ (c = 123 \/ c = 32 \/ c = 9 \/ c = 10 \/ c = 13)).
+Proof.
+  intros J. unfold Proofs.JwtDispatch.J_object_start, json_start. split; intros H b Hb;
+    destruct (H b Hb) as (c & r & E & Hc); exists c, r; (split; [exact E|]).
+  - repeat (apply orb_true_iff in Hc; destruct Hc as [Hc|Hc]); apply N.eqb_eq in Hc; auto 6.
+  - repeat rewrite orb_true_iff. repeat rewrite N.eqb_eq. tauto.
+Qed.
+Print Assumptions C18_J_object_start_def.
+
+(* the model's J - the reference reader of Model/JwtJson.v with any fallback for the texts it
+   leaves undecided - satisfies it; so does J0, the reader alone *)
+Theorem C18_reader_object_start : forall oracle,
+  Proofs.JwtDispatch.J_object_start (Model.JwtJson.J_ref oracle).
+Proof. exact Proofs.JwtJson.J_ref_object_start. Qed.
+Print Assumptions C18_reader_object_start.
+
+Example C18_J0_object_start : Proofs.JwtDispatch.J_object_start Model.JwtJson.J0.
+Proof. exact (Proofs.JwtJson.J_ref_object_start _). Qed.
+
+(* the hypotheses can be met: J0, an ordinary name, the 123-byte token that is also one ASN.1 TLV
+   (the witness of F37) *)
+Example C18_dispatch_example :
+  let data := bs "eyJhbGciOiJIUzI1NiIsInR5cCI6IkpXVCJ9.eyJzdWIiOiJ4eHh4eHh4eHh4eHh4eHh4eHh4eHh4eHh4eHh4eHh4eHh4eHh4eHh4eHh4eHh4eHgifQ.AQEBAQE" in
+  length data = 123%nat /\
+  forallb (fun r => match Model.Dispatch.matches_name r (bs "token.jwt") with Ok false => true | _ => false end)
+          Model.Dispatch.table = true /\
+  is_jwt Model.JwtJson.J0 data = true /\
+  inspect_jwt Model.JwtJson.J0 (fun _ _ => true) (fun _ _ => Err "") (bs "token.jwt") data = jwt_data Model.JwtJson.J0 data.
+Proof. vm_compute. repeat split; reflexivity. Qed.
+
+(* the old form of the statement (hypotheses about names, signatures and the UUID sniffer given
+   explicitly, sniffers and parsers arbitrary) remains as a corollary of the table facts *)
+Corollary C18_dispatch_explicit : forall sniff parse name data i,
   (forall r, In r Model.Dispatch.table -> Model.Dispatch.matches_name r name = Ok false) ->
   (forall r, In r Model.Dispatch.table -> Model.Dispatch.matches_magic r data = false) ->
   sniff (bs "IsUUID") data = false ->
@@ -267,15 +331,48 @@ Theorem C18_dispatch_partial : forall sniff parse name data i,
   parse (bs "JWTData") data = Ok i ->
   Model.Dispatch.inspect sniff parse name data = Ok i.
 Proof. exact Proofs.JwtDispatch.jwt_reached_now. Qed.
-Print Assumptions C18_dispatch_partial.
+Print Assumptions C18_dispatch_explicit.
 
-(* the hypotheses can be met: a 123-byte token (the witness of F37) under an ordinary name *)
-Example C18_dispatch_example :
-  let data := bs "eyJhbGciOiJIUzI1NiIsInR5cCI6IkpXVCJ9.eyJzdWIiOiJ4eHh4eHh4eHh4eHh4eHh4eHh4eHh4eHh4eHh4eHh4eHh4eHh4eHh4eHh4eHh4eHgifQ.AQEBAQE" in
-  length data = 123%nat /\
-  forallb (fun r => match Model.Dispatch.matches_name r (bs "token.jwt") with Ok false => true | _ => false end
-                    && negb (Model.Dispatch.matches_magic r data)) Model.Dispatch.table = true.
-Proof. vm_compute. split; reflexivity. Qed.
+(* the case runner's op inspect takes a short cut in the UUID recogniser (a text with a '.' is no
+   UUID); it computes the same function *)
+Theorem C18_run_inspect : forall J other_sniff other_parse name data,
+  inspect_jwt_quick J other_sniff other_parse name data = inspect_jwt J other_sniff other_parse name data.
+Proof. exact Proofs.JwtDispatch.inspect_quick_eq. Qed.
+(* the three statements that rest on the proofs about the UUID model, checked for assumptions together
+   (each traversal of those proofs takes a quarter of a minute) *)
+Definition C18_uuid_dependent := (C18_uuid_text_bytes, C18_dispatch, C18_run_inspect).
+Print Assumptions C18_uuid_dependent.
+
+(* ---- the reference reader: two rules of RFC 8259 for every text ---- *)
+(* a control character directly inside a string literal, and anything but white space after the
+   top-level value, make the text an error - whatever follows *)
+Theorem C18_reader_raw_control : forall pre m c post,
+  Model.JwtJson.scan Model.JwtJson.init pre = Some m -> Model.JwtJson.m_st m = Model.JwtJson.SInString -> c < 32 ->
+  Model.JwtJson.read_json (pre ++ c :: post) = Model.JwtJson.RDecided JRError.
+Proof. exact Proofs.JwtJson.raw_control_rejected. Qed.
+Print Assumptions C18_reader_raw_control.
+
+Theorem C18_reader_trailing_data : forall pre m c post,
+  Model.JwtJson.scan Model.JwtJson.init pre = Some m -> Model.JwtJson.m_st m = Model.JwtJson.SEndTop ->
+  Model.JwtJson.is_space c = false ->
+  Model.JwtJson.read_json (pre ++ c :: post) = Model.JwtJson.RDecided JRError.
+Proof. exact Proofs.JwtJson.trailing_data_rejected. Qed.
+Print Assumptions C18_reader_trailing_data.
+
+(* what the reader answers on a text that uses every decoding rule: escapes, a surrogate pair, a
+   lone surrogate and an invalid byte (U+FFFD), a repeated name (the last one counts), numbers as
+   the nearest double, nested values by kind *)
+Example C18_reader_example :
+  Model.JwtJson.read_json
+    (bs " {""sub"":""x"", ""\u0073ub"":""\u00e9\n\ud83d\ude00\ud800!"", ""exp"":1.7e9,""iat"":1e23, ""aud"":[1,{""a"":null}],""n"":null,""t"":true,""o"":{}} ") =
+  Model.JwtJson.RDecided (JRObject
+    [(bs "aud", JArr); (bs "exp", JNum 7130316800000000 (-22)); (bs "iat", JNum 5960464477539062 24);
+     (bs "n", JNull); (bs "o", JObj);
+     (bs "sub", JStr [195; 169; 10; 240; 159; 152; 128; 239; 191; 189; 33]); (bs "t", JBool true)]) /\
+  Model.JwtJson.read_json (bs "{""exp"":1e999}") = Model.JwtJson.RDecided JRError /\
+  Model.JwtJson.read_json (bs " null ") = Model.JwtJson.RDecided JRNull /\
+  Model.JwtJson.read_json (bs "[{}]") = Model.JwtJson.RDecided JRError.
+Proof. vm_compute. repeat split; reflexivity. Qed.
 
 (* the table order before the repair (JWT after the ASN.1 rows) fails the T1 check *)
 Theorem C18_F37_refuted :
@@ -285,8 +382,6 @@ Theorem C18_F37_refuted :
 Proof. exact Proofs.JwtDispatch.dispatch_order_before_F37_rejected. Qed.
 Print Assumptions C18_F37_refuted.
 
-(* Missing for the full C18_dispatch of DESIGN 4/C18 ("forall well-formed tok, the first candidate
-   is JWTData"): deriving the three hypotheses of C18_dispatch_partial from recognition.  That needs
-   facts about the JSON oracle (an object's text starts with white space or '{', so a first segment
-   never starts with a signature such as "ssh-rsa") and about the UUID library; both are exercised
-   by the op "inspect" of the correspondence check on every well-formed generated token. *)
+(* Remaining hypotheses of C18_dispatch: the name condition (a file called authorized_keys or
+   known_hosts is claimed by its name row before any sniffer runs) and J_object_start for the real
+   encoding/json, which the spec checker tests on every answer of the library (op json). *)
